@@ -1199,6 +1199,9 @@ def make_config(rseed: int, prop: str, tier: str, faults: bool) -> dict[str, Any
     if prop == "C01" and r.random() < 0.5:
         # bias to separator-bearing strings
         strpool = r.sample([s for s in U.STR_POOL if set(":=()[]@<>") & set(s)] + ["1", "2", "3"], min(5, nstr + 1))
+    if prop == "C01" and r.random() < 0.3:
+        # collision kit: strings that move a separator run from one field into its neighbour
+        strpool = ["1):b=<class 'str'>(2", "3", "1", "2):b=<class 'str'>(3"] + r.sample(U.STR_POOL, 1)
     leafs = ["LeafA", "LeafB", "LeafA2", "Meta"]
     extra = ["Vals", "Carrier", "Boom"]
     if prop in ("C01",):
